@@ -8,6 +8,7 @@ package main
 // instantiation search, which is what makes such obligations unstable.
 
 import (
+	"os"
 	"strings"
 )
 
@@ -137,9 +138,13 @@ func (st *State) pointwise(goal string, asserts []string) (string, []string) {
 	}
 	sk := st.fresh("sk_"+strings.TrimPrefix(v, "q_"), Sort(sort))
 	newGoal := substVar(body, v, sk)
-	if prefix != "" {
-		// to prove  prefix ==> G  is to prove G with prefix among the hypotheses: its quantified
-		// conjuncts are then instantiated at the skolem constant like every other hypothesis
+	if prefix != "" && (!strings.Contains(prefix, "(forall ") || os.Getenv("QEDVC_NO_PREFIX_HYP") != "") {
+		newGoal = imp(prefix, newGoal)
+	} else if prefix != "" {
+		// a prefix with quantified conjuncts: to prove  prefix ==> G  is to prove G with prefix among
+		// the hypotheses, and its quantified conjuncts are then instantiated at the skolem constant
+		// like every other hypothesis (a quantifier-free prefix is left where it is: moving it made
+		// the queries of client.topology.NextReadEndpoint markedly slower)
 		asserts = append(append([]string(nil), asserts...), conjuncts(prefix)...)
 	}
 	out := append([]string(nil), asserts...)
